@@ -39,7 +39,7 @@ namespace
             int nt = (int)r.range(2, 4);
             int mode = r.chance(1, 4) ? 1 : 0;
             int memk = (int)r.pick<int64_t>({0, 0, 1, 2, 5, 11});
-            p.cfg = {nt, mode, memk};
+            p.cfg = {nt, mode, memk, prog == P_QUEUE && r.chance(1, 3) ? (int64_t)r.range(1, 5) : 0}; // cfg[3]: safe_queue built from an initializer list of (cfg[3]-1) items
             // schedule
             Op s = {OP_SCHED};
             if (mode == 0)
@@ -116,7 +116,7 @@ namespace
         std::string describe(const Plan &p) override
         {
             std::string s = "threads=" + std::to_string(mod(p.c(0) - 2, 3) + 2) + " sched=" + (p.c(1) % 2 ? "pct" : "choices") +
-                            " mem_preempt_every=" + std::to_string(p.c(2)) + " actions:";
+                            " mem_preempt_every=" + std::to_string(p.c(2)) + (prog == P_QUEUE && mod(p.c(3), 6) ? " queue{initializer_list of " + std::to_string(mod(p.c(3), 6) - 1) + "}" : "") + " actions:";
             static const char *kn[3][4] = {{"round", "round", "round", "round"}, {"wait", "wake_one", "wake_all", "yield"}, {"push", "pop", "size", "push"}};
             for (auto &o : p.ops)
             {
@@ -155,7 +155,7 @@ namespace
         uint64_t wakes_with_victim = 0, wake_raced = 0;
         // P_QUEUE
         void *q = nullptr;
-        int tokens = 0;
+        int tokens = 0, preload = 0;
         long pushes_started = 0, pushes_finished = 0, pops_started = 0, pops_finished = 0;
         int nextseq[thr::MAXT];
         std::map<std::pair<int, int>, int> popped;
@@ -233,7 +233,16 @@ namespace
         }
         heads[0] = prog == P_WAIT ? prog_head_new() : nullptr;
         heads[1] = prog == P_WAIT ? prog_head_new() : nullptr;
-        q = prog == P_QUEUE ? prog_queue_new() : nullptr;
+        preload = prog == P_QUEUE ? (int)mod(p.c(3), 6) : 0;
+        q = prog == P_QUEUE ? (preload ? prog_queue_new_preloaded(nt, preload - 1) : prog_queue_new()) : nullptr;
+        if (preload)
+        {
+            // the preloaded items belong to pseudo producer `nt`; they were "pushed" before any thread started
+            nextseq[nt] = preload - 1;
+            tokens = preload - 1;
+            pushes_started = pushes_finished = preload - 1;
+            probe("queue_from_initializer_list");
+        }
 
         std::vector<std::function<void()>> bodies;
         for (int t = 0; t < nt; t++)
@@ -525,7 +534,7 @@ extern "C"
     {
         int t = thr::self();
         W->pops_finished++;
-        if (prod < 0 || prod >= W->nt || seq < 0 || seq >= W->nextseq[prod])
+        if (prod < 0 || prod >= W->nt + (W->preload ? 1 : 0) || seq < 0 || seq >= W->nextseq[prod])
             fail("C20/queue-invented-item", "popped item (%d,%d) was never pushed", prod, seq);
         if (++W->popped[{prod, seq}] > 1) fail("C20/queue-duplicate", "item (%d,%d) popped twice", prod, seq);
         if (seq <= W->lastseq_seen[t][prod])
